@@ -2,6 +2,7 @@ import Gallia.Proofs.Lemmas.DbLog
 import Gallia.Proofs.Lemmas.DbLogMulti
 import Gallia.Proofs.Lemmas.DbTables
 import Gallia.Gen.C11Tables
+import Gallia.Proofs.C01
 /-
   C11 — Every exchange is recorded once, in order and byte-exact, in the scan database.
   Property theorems only; helper lemmas are in `Proofs/Lemmas/DbLog.lean`.
@@ -84,6 +85,53 @@ theorem negative_reply_keeps_state (st : EcuState) (rest : Bytes) : updateState 
 theorem session_reply_sets_state (st : EcuState) (t : UInt8) (rest : Bytes) (ht : t.toNat ≤ 0x7F) :
     updateState st (0x50 :: t :: rest) = ⟨t.toNat, none⟩ := by
   simp [updateState, classify, dscMin, subFunctionMax, ht]
+
+/-- reading back the active session (`22 F1 86` -> `62 F1 86 <record>`) when the reply reports the session the client
+    already holds changes nothing - in particular the security level unlocked by an earlier sendKey reply is kept -/
+theorem readback_same_session_keeps_state (st : EcuState) (b : UInt8) (rec : Bytes)
+    (h : fromBE (b :: rec) = st.session) :
+    updateState st (0x62 :: 0xF1 :: 0x86 :: b :: rec) = st := by
+  have hd : fromBE [(0xF1 : UInt8), 0x86] = sessionDid := by decide
+  simp [updateState, classify, rdbiMin, hd, h]
+
+/-- ... and when it reports another session, that session is taken and the security level is dropped -/
+theorem readback_other_session_resets (st : EcuState) (b : UInt8) (rec : Bytes)
+    (h : fromBE (b :: rec) ≠ st.session) :
+    updateState st (0x62 :: 0xF1 :: 0x86 :: b :: rec) = ⟨fromBE (b :: rec), none⟩ := by
+  have hd : fromBE [(0xF1 : UInt8), 0x86] = sessionDid := by decide
+  have h2 : st.session ≠ fromBE (b :: rec) := fun e => h e.symm
+  simp [updateState, classify, rdbiMin, hd, h2]
+
+/-- the history sendKey (level 1 unlocked) - session read-back reporting the same session - any further request:
+    the rows of the read-back and of every request after it record the unlocked level -/
+theorem level_survives_same_session_readback (st : EcuState) (c : Nat) (b : UInt8) (rec : Bytes) (e k r : Exchange)
+    (hk : k.out.response = some [0x67, 0x02]) (hr : r.out.response = some (0x62 :: 0xF1 :: 0x86 :: b :: rec))
+    (hs : fromBE (b :: rec) = st.session) (hki : k.implicitOn = true) (hri : r.implicitOn = true) (hei : e.implicitOn = true) :
+    (specRows st c [k, r, e]).map (·.state) = [st, { st with sec := some 1 }, { st with sec := some 1 }] := by
+  have h1 : nextState st k = { st with sec := some 1 } := by
+    simp [nextState, hk, updateState, classify, secMin, subFunctionMax]
+  have h2 : nextState { st with sec := some 1 } r = { st with sec := some 1 } := by
+    simp only [nextState, hr]
+    exact readback_same_session_keeps_state _ b rec hs
+  simp [specRows, hki, hri, hei, mkRow, h1, h2]
+
+example : (specRows ⟨3, none⟩ 0
+    [⟨[0x27, 0x02, 0xDE], .ret [0x67, 0x02], false, true, 1, 1⟩, ⟨[0x22, 0xF1, 0x86], .ret [0x62, 0xF1, 0x86, 0x03], false, true, 1, 1⟩,
+     ⟨[0x3E, 0x00], .ret [0x7E, 0x00], false, true, 1, 1⟩]).map (·.state) = [⟨3, none⟩, ⟨3, some 1⟩, ⟨3, some 1⟩] := by
+  decide
+
+/-- the request bytes of a row are the bytes on the wire, whatever they are: the request object that is logged is the
+    dynamically parsed `request.pdu`, and its re-encoding is the input for *every* byte string - well-formed,
+    truncated, over-long, odd-length, unknown service (rests on the round-trip gate of the dynamic parser, C01) -/
+theorem stored_request_is_wire (wire : Bytes) : storedRequest wire = wire :=
+  Gallia.C01.encode_decode wire
+
+/-- both branches of the dynamic parser occur: a ReadDataByIdentifier request with a dangling byte is logged as an
+    opaque raw request (and stored as sent), the well-formed one as a typed request -/
+example : storedRequest [0x22, 0xF1, 0x90, 0xF1] = [0x22, 0xF1, 0x90, 0xF1] ∧
+    (UdsReq.decode [0x22, 0xF1, 0x90, 0xF1]).isRaw = true ∧
+    (UdsReq.decode [0x22, 0xF1, 0x90]).isRaw = false := by
+  decide +kernel
 
 /-- send time not after receive time, in every row that has a receive time -/
 theorem send_le_recv (st : EcuState) (c : Nat) (h : List Exchange) :
